@@ -14,6 +14,7 @@
    The repairs made for C17 are switchable ([cfg]) so that the behaviour before each repair
    stays available for the `_refuted` theorems; the running code corresponds to [fixed]. *)
 From WI Require Import Lib.Base Lib.Info Lib.Utf8 Lib.Strings Lib.Time.
+From WI Require Model.Base64.
 Open Scope N_scope.
 
 Record cfg := { fx_v6time : bool;     (* F18: v6 timestamp decoded locally (RFC 9562 5.6) *)
@@ -267,3 +268,70 @@ Definition form (f : form_kind) (u : bytes) : bytes :=
   end.
 (* t spells s up to ASCII letter case *)
 Definition same_up_to_case (t s : bytes) : Prop := map to_lower_ascii t = s.
+
+(* ---------- the callers' side: texts live in byte buffers (Go slices) ----------
+   IsUUID / UUIDValue / parseUUID are handed a slice: a window [off, off+len) of some backing
+   array that the caller keeps, looks at again and refills (a fixed read buffer, the token
+   buffer of a bufio.Scanner).  The functions above take the TEXT (the bytes of the window).
+   The buffer layer is the one of Model/Base64.v (window / overwrite / reuse_windows: what the
+   harness does with copy(backing[off:], text); backing[off:off+len]); [answers_in_place f b steps]
+   is what a caller gets who refills one array step by step and asks [f] after every refill. *)
+Definition answers_in_place {A} (f : bytes -> A) (b : bytes) (steps : list (nat * bytes)) : list A :=
+  map (fun wb => f (fst wb)) (Model.Base64.reuse_windows b steps).
+(* what one look at a text gives: (IsUUID, UUIDValue) *)
+Definition uuid_report (data : bytes) : bool * result info := (is_uuid data, uuid_value data).
+
+(* ---------- the same functions for very long texts ----------
+   The definitions above follow the Go code with unary fuel ([length s]) and [rev]; run on a
+   text of a megabyte they need a stack as deep as the text and quadratic time.  The variants
+   below compute the same values (Proofs/Uuid.v: trim_space_fast_eq, parse_text_fast_eq) with
+   the text itself as fuel, [rev_append], and a length test that stops after 46 bytes (the
+   longest form, urn:uuid: + 36, has 45); they are what op `long` of Run/C17.v runs. *)
+Fixpoint trim_left_fast (fuel s : bytes) : bytes :=
+  match fuel with
+  | [] => s
+  | _ :: f =>
+      match s with
+      | [] => []
+      | _ =>
+          match decode_rune s with
+          | (true, r, sz) => if is_space_rune r then trim_left_fast f (drop sz s) else s
+          | (false, _, _) => s
+          end
+      end
+  end.
+Fixpoint trim_right_fast (fuel rs : bytes) : bytes :=
+  match fuel with
+  | [] => rs
+  | _ :: f => match last_space rs with
+              | Some sz => trim_right_fast f (drop sz rs)
+              | None => rs
+              end
+  end.
+Definition trim_space_fast (s : bytes) : bytes :=
+  let l := trim_left_fast s s in
+  let r := rev_append l [] in
+  rev_append (trim_right_fast r r) [].
+
+Definition parse_fast (s : bytes) : result bytes :=
+  let n := length (take 46 s) in
+  if Nat.eqb n 36 then parse36 s
+  else if Nat.eqb n 45 then
+    (if fold_eq_ascii (take 9 s) urn_prefix then parse36 (drop 9 s) else Err "invalid urn prefix")
+  else if Nat.eqb n 38 then parse36 (drop 1 s)
+  else if Nat.eqb n 32 then
+    match hex_decode s with Some u => Ok u | None => Err "invalid UUID format" end
+  else Err "invalid UUID length".
+
+Definition parse_text_fast (c : cfg) (data : bytes) : result bytes :=
+  let s := trim_space_fast data in
+  if fx_braces c && Nat.eqb (length (take 46 s)) 38 && negb ((nth 0 s 0 =? 123) && (nth 37 s 0 =? 125))
+  then Err "invalid braces"
+  else parse_fast s.
+Definition is_uuid_fast (c : cfg) (data : bytes) : bool := is_ok (parse_text_fast c data).
+Definition uuid_value_fast (c : cfg) (data : bytes) : result info :=
+  match parse_text_fast c data with
+  | Ok u => Ok (describe_gen c u)
+  | Err e => Err e
+  | Panic e => Panic e
+  end.
